@@ -444,6 +444,64 @@ fn lone_cases() -> Vec<LoneCase> {
     v
 }
 
+/// The window's sample points are points of the window: for a wall of any outline and pose, with the window
+/// positioned in the wall polygon's frame (origin at the first corner, X along the first edge, as documented on
+/// WallGeom::to_polygon_coords_matrix), every point the library samples lies in the set-back plane, inside the
+/// window's rectangle, and their centroid is the rectangle's centre.
+fn check_sample_points(h: &CaseH, c: &super::c13b::RevealCase) -> Verdict {
+    let (m, _wall_id, _win_id) = super::c13b::one_window_model(c);
+    let win = &m.windows[0];
+    let pts = m.ray_origins_for_window(win);
+    if c.wall.polygon.len() < 3 {
+        return Verdict::Pass;
+    }
+    vensure!(!pts.is_empty(), "C12:sample-points:none", "a positioned window on a positioned wall has no sample points");
+    let (tilt, az, wp) = (c.wall.tilt as f64, c.wall.azimuth as f64, ora::v3(&c.wall.position));
+    let p0 = [c.wall.polygon[0].x as f64, c.wall.polygon[0].y as f64];
+    let p1 = [c.wall.polygon[1].x as f64, c.wall.polygon[1].y as f64];
+    let e = [p1[0] - p0[0], p1[1] - p0[1]];
+    let el = (e[0] * e[0] + e[1] * e[1]).sqrt();
+    if el < 1e-6 {
+        return Verdict::Pass;
+    }
+    let (ex, ey) = (e[0] / el, e[1] / el);
+    let (x0, y0, w, hh, sb) = (c.x as f64, c.y as f64, c.w as f64, c.h as f64, c.setback as f64);
+    // the set-back plane only applies when the library generates reveals (|setback| >= 0.01 is its own rule for those);
+    // the sample points are always placed at -setback
+    let tol = 2e-3 * (1.0 + ora::norm(wp) / 10.0 + (x0.abs() + y0.abs() + w + hh) / 10.0);
+    let (mut cx, mut cy) = (0.0, 0.0);
+    for p in &pts {
+        let l = ora::to_local(tilt, az, wp, [p.x as f64, p.y as f64, p.z as f64]);
+        vensure!((l[2] + sb).abs() <= tol, "C12:sample-points:off-plane", "sample point {:?} is {} m off the set-back plane (setback {})", p, l[2] + sb, sb);
+        // wall-local -> polygon frame
+        let d = [l[0] - p0[0], l[1] - p0[1]];
+        let (u, v) = (d[0] * ex + d[1] * ey, -d[0] * ey + d[1] * ex);
+        vensure!(
+            u >= x0 - tol && u <= x0 + w + tol && v >= y0 - tol && v <= y0 + hh + tol,
+            "C12:sample-points:outside-window",
+            "sample point at ({:.3}, {:.3}) in the wall polygon's frame lies outside the window [{}, {}] x [{}, {}] (polygon starts at ({}, {}), first edge direction ({:.3}, {:.3}))",
+            u, v, x0, x0 + w, y0, y0 + hh, p0[0], p0[1], ex, ey
+        );
+        cx += u;
+        cy += v;
+    }
+    let n = pts.len() as f64;
+    vensure!((cx / n - (x0 + w / 2.0)).abs() <= tol && (cy / n - (y0 + hh / 2.0)).abs() <= tol, "C12:sample-points:not-centred", "centroid of the sample points ({:.3}, {:.3}) is not the window centre ({:.3}, {:.3})", cx / n, cy / n, x0 + w / 2.0, y0 + hh / 2.0);
+    h.evals(pts.len() as u64);
+    let off_origin = p0[0].abs() > 1e-6 || p0[1].abs() > 1e-6;
+    let turned = ey.abs() > 1e-6 || ex < 0.0;
+    h.class(match (off_origin, turned) {
+        (false, false) => "polygon/origin-start,+x",
+        (true, false) => "polygon/offset-start,+x",
+        (false, true) => "polygon/origin-start,turned",
+        (true, true) => "polygon/offset-start,turned",
+    });
+    if off_origin && turned {
+        h.nontrivial(fp(c));
+    }
+    Verdict::Pass
+}
+
 pub fn run(args: &Args) -> ! {
     let ctx = Ctx::new("C12", "exploration", args);
     ctx.rule("scenes: generated buildings of 1-3 prism spaces (rotated footprints, all orientations and odd tilts, windows with and without setback / position) with 0-6 random shades, optionally 30-90 more shades near the building (so that the acceleration structure runs below, at and above its leaf size), x zones; oracle: per July design-day hour, exact f64 ray/polygon tests (1 mm band => interval) from the library's sample points towards the sun against other exterior/adiabatic walls, shades and the window's own reveal quads built from first principles, weighted with radiation_for_surface on the window plane; bounds; windows without position = 1; metamorphic: one more wall or shade never raises any factor. lone: 32 zones x 10 poses x {nothing, huge screen 5 cm in front} (exhaustive): >= 0.97 / diffuse share only. shipped models: bounds only (hundreds of obstacles: exact oracle on a sample of windows in the thorough tier). Non-trivial: scene with a window that is partially shaded at some hour.");
@@ -457,6 +515,9 @@ pub fn run(args: &Args) -> ! {
     });
     ctx.run_enum("lone", &lone_cases(), true, check_lone);
     ctx.run_prop("scenes", ctx.tier().pick(8_000, 100_000), scene, check_scene);
+    ctx.rule("sample_points: walls of any outline (rectangles, star polygons: first corner anywhere, first edge in any direction) and pose with one window: the library's sample points lie in the set-back plane, inside the window's rectangle placed in the wall polygon's frame, and are centred on it. Non-trivial: polygon that neither starts at the origin nor runs along +x first.");
+    ctx.run_prop("sample_points", ctx.tier().pick(60_000, 1_000_000), super::c13b::reveal_case, check_sample_points);
+    ctx.require_class("sample_points/polygon/offset-start,turned");
     for c in ["scenes/occluders/<=30", "scenes/occluders/>30", "scenes/setback", "scenes/no-position", "scenes/partially-shaded-window", "scenes/added/wall", "scenes/added/shade", "scenes/added-obstacle-shades-something"] {
         ctx.require_class(c);
     }
@@ -468,6 +529,7 @@ pub fn replay_one(ctx: &Ctx, doc: &ReplayDoc) {
     match doc.sub.as_str() {
         "scenes" => replay_case::<SceneCase>(ctx, &doc.sub, &doc.case, check_scene),
         "lone" => replay_case::<LoneCase>(ctx, &doc.sub, &doc.case, check_lone),
+        "sample_points" => replay_case::<super::c13b::RevealCase>(ctx, &doc.sub, &doc.case, check_sample_points),
         s => ctx.infra_error(format!("unknown sub {}", s)),
     }
 }
